@@ -76,6 +76,13 @@ pub struct SweepResult {
 /// One crash point: fresh searcher, search interrupted at node N (several interruptions if
 /// `ns` has more than one element), then a completed search of the same position and depth.
 pub fn one_point(which: &str, cache: &RefCache, mg: &MoveGenerator, rep: &Report, name: &str, fen: &str, b: &Board, d: u8, ns: &[u64], check_value: bool) -> SweepResult {
+    one_point_to(which, cache, mg, rep, name, fen, b, d, d, ns, check_value)
+}
+
+/// As `one_point`, with the completed search run to depth `fd` (d or d + 1). For fd > d the
+/// comparison is made only if the table served no result from an entry deeper than requested
+/// (otherwise the reference value is not the unambiguous expectation; see DESIGN.md C05/C06).
+pub fn one_point_to(which: &str, cache: &RefCache, mg: &MoveGenerator, rep: &Report, name: &str, fen: &str, b: &Board, d: u8, fd: u8, ns: &[u64], check_value: bool) -> SweepResult {
     if rep.violation_count.load(Ordering::Relaxed) >= 5 {
         // enough evidence: do not spend time on further crash points of a failing tree
         return SweepResult { deadline_hit: false, overrun: 0 };
@@ -90,6 +97,8 @@ pub fn one_point(which: &str, cache: &RefCache, mg: &MoveGenerator, rep: &Report
         d.to_string(),
         "--at".into(),
         ns_text.clone(),
+        "--final-depth".into(),
+        fd.to_string(),
     ];
     let _job = crate::watch::enter(
         format!("{} fen={} depth={} no-answer", which, fen, d),
@@ -114,15 +123,17 @@ pub fn one_point(which: &str, cache: &RefCache, mg: &MoveGenerator, rep: &Report
                 rep_changed = Some((*n, s.verif_repetition_len()));
             }
         }
-        let fin = if check_value { Some(s.find_best_move(b, d, None)) } else { None };
-        (hit, worst_overrun, rep0, rep_changed, fin)
+        crate::search::verif::reset_tt_cutoffs();
+        let fin = if check_value { Some(s.find_best_move(b, fd, None)) } else { None };
+        let deeper = crate::search::verif::tt_cutoffs().1;
+        (hit, worst_overrun, rep0, rep_changed, fin, deeper)
     });
     match r {
         Err(e) => {
             rep.violation(format!("{} fen={} depth={} at={} panic", which, fen, d, ns_text), format!("{} ({:?}) depth {} interrupted at node(s) {}: {}", name, fen, d, ns_text, e), args, J::Null);
             SweepResult { deadline_hit: false, overrun: 0 }
         }
-        Ok((hit, overrun, rep0, rep_changed, fin)) => {
+        Ok((hit, overrun, rep0, rep_changed, fin, deeper)) => {
             if which == "C07" && overrun > OVERRUN_LIMIT {
                 rep.violation(
                     format!("C07 fen={} depth={} overrun", fen, d),
@@ -140,11 +151,11 @@ pub fn one_point(which: &str, cache: &RefCache, mg: &MoveGenerator, rep: &Report
                         J::Null,
                     );
                 }
-                if let Some((score, mv)) = fin {
-                    if let Err(text) = compare(cache, mg, b, d, score, mv) {
+                if let Some((score, mv)) = fin.filter(|_| fd == d || deeper == 0) {
+                    if let Err(text) = compare(cache, mg, b, fd, score, mv) {
                         rep.violation(
-                            format!("C06 fen={} depth={} value-after-interruption", fen, d),
-                            format!("{} ({:?}): search to depth {} interrupted at node(s) {}, then a completed search to depth {} on the same engine: {}", name, fen, d, ns_text, d, text),
+                            format!("C06 fen={} depth={} final-depth={} value-after-interruption", fen, d, fd),
+                            format!("{} ({:?}): search to depth {} interrupted at node(s) {}, then a completed search to depth {} on the same engine: {}", name, fen, d, ns_text, fd, text),
                             args,
                             J::obj().set("score", score).set("move", mv.map(|m| m.to_algebraic())),
                         );
@@ -152,6 +163,61 @@ pub fn one_point(which: &str, cache: &RefCache, mg: &MoveGenerator, rep: &Report
                 }
             }
             SweepResult { deadline_hit: hit, overrun }
+        }
+    }
+}
+
+/// Game-history content probe: with a recorded game history in place (two successors of the
+/// root pushed, one of them twice), the answers of the real repetition query for the root and
+/// four of its successors, and the stack length, must be the same before and after a search
+/// interrupted at node N. Returns true if the deadline fell inside the search.
+pub fn history_point(rep: &Report, mg: &MoveGenerator, name: &str, fen: &str, b: &Board, d: u8, n: u64) -> bool {
+    if rep.violation_count.load(Ordering::Relaxed) >= 5 {
+        return false;
+    }
+    crate::timer::verif::set_node_clock(Some(1));
+    let succ: Vec<Board> = mg.generate_moves(b).iter().take(4).map(|m| b.clone_with_move(m)).collect();
+    if succ.len() < 2 {
+        return false;
+    }
+    let args = vec!["c06-history".to_string(), "--fen".into(), fen.to_string(), "--depth".into(), d.to_string(), "--at".into(), n.to_string()];
+    let _job = crate::watch::enter(format!("C06 fen={} depth={} no-answer", fen, d), format!("{} ({:?}) depth {}: deadline at node {} but no answer after {} s", name, fen, d, n, crate::watch::LIMIT_S), args.clone());
+    let r = guard(|| {
+        let mut s = Searcher::new();
+        s.push_position(&succ[0]);
+        s.push_position(&succ[1]);
+        s.push_position(&succ[0]);
+        let probe = |s: &Searcher| -> (usize, Vec<bool>) {
+            let mut v = vec![s.verif_is_draw_by_repetition(b)];
+            for x in &succ {
+                v.push(s.verif_is_draw_by_repetition(x));
+            }
+            (s.verif_repetition_len(), v)
+        };
+        let before = probe(&s);
+        s.find_best_move(b, d, Some(Duration::from_millis(n)));
+        let hit = crate::timer::verif::first_stop().is_some();
+        let after = probe(&s);
+        (before, after, hit)
+    });
+    match r {
+        Err(e) => {
+            rep.violation(format!("C06 fen={} depth={} at={} history panic", fen, d, n), format!("{} ({:?}) depth {} interrupted at node {} with a game history: {}", name, fen, d, n, e), args, J::Null);
+            false
+        }
+        Ok((before, after, hit)) => {
+            if before != after {
+                rep.violation(
+                    format!("C06 fen={} depth={} history-content", fen, d),
+                    format!(
+                        "{} ({:?}) depth {}: with the game history [s1, s2, s1] recorded, the search interrupted at node {} changed the history: stack length {} -> {}, repetition answers for (root, s1..s4) {:?} -> {:?}",
+                        name, fen, d, n, before.0, after.0, before.1, after.1
+                    ),
+                    args,
+                    J::Null,
+                );
+            }
+            hit
         }
     }
 }
@@ -191,7 +257,7 @@ pub fn run(which: &'static str, tier: &str, seed: u64, out: &str) {
     let mut nontrivial = 0u64;
     let mut max_overrun = 0u64;
     let mut samples = Vec::new();
-    let wall_cap = if thorough { 3000.0 } else { 50.0 };
+    let wall_cap = if thorough { 3000.0 } else { 100.0 };
     'outer: for (name, fen) in SWEEP_POSITIONS {
         let b = board(fen);
         for d in [2u8, 3] {
@@ -241,7 +307,26 @@ pub fn run(which: &'static str, tier: &str, seed: u64, out: &str) {
                 evaluations += pairs_done;
                 nontrivial += pr.iter().filter(|r| r.deadline_hit).count() as u64;
             }
-            eprintln!("[{}] {} depth {}: T={} nodes, {} crash points, deadline inside the search in {}, pairs {}, max overrun {} ({:.1}s)", which, name, d, t, points.len(), hits, pairs_done, mo, rep.elapsed());
+            let mut deeper_done = 0u64;
+            let mut history_done = 0u64;
+            if which == "C06" && (t <= 2500 || thorough) {
+                // completed search one ply deeper than the interrupted one
+                if cache.v(&mg, &b, d + 1).is_some() && total_nodes(&b, d + 1, 20_000).is_some() {
+                    let step = if thorough || t <= 400 { 1 } else { 3 };
+                    let pts: Vec<u64> = (0..=t).step_by(step).collect();
+                    let pr: Vec<SweepResult> = par_map(&pts, |n| one_point_to(which, &cache, &mg, &rep, name, fen, &b, d, d + 1, &[*n], true));
+                    deeper_done = pr.len() as u64;
+                    evaluations += deeper_done;
+                    nontrivial += pr.iter().filter(|r| r.deadline_hit).count() as u64;
+                }
+                // game-history content with a recorded history in place
+                let pts: Vec<u64> = (0..=t).collect();
+                let hr: Vec<bool> = par_map(&pts, |n| history_point(&rep, &mg, name, fen, &b, d, *n));
+                history_done = hr.len() as u64;
+                evaluations += history_done;
+                nontrivial += hr.iter().filter(|x| **x).count() as u64;
+            }
+            eprintln!("[{}] {} depth {}: T={} nodes, {} crash points, deadline inside the search in {}, pairs {}, deeper-final {}, history probes {}, max overrun {} ({:.1}s)", which, name, d, t, points.len(), hits, pairs_done, deeper_done, history_done, mo, rep.elapsed());
             if samples.len() < 5 {
                 samples.push(J::obj().set("fen", *fen).set("depth", d).set("deadline_at_node", t / 2).set("then", if which == "C06" { "completed search of the same position and depth on the same Searcher" } else { "count nodes visited after the deadline was first seen" }));
             }
@@ -254,6 +339,8 @@ pub fn run(which: &'static str, tier: &str, seed: u64, out: &str) {
                     .set("crash_points", points.len())
                     .set("deadline_fell_inside_search", hits)
                     .set("double_interruption_pairs", pairs_done)
+                    .set("crash_points_with_completed_search_one_ply_deeper", deeper_done)
+                    .set("crash_points_with_recorded_game_history_probed", history_done)
                     .set("max_nodes_after_deadline", mo),
             );
         }
@@ -310,13 +397,30 @@ pub fn run(which: &'static str, tier: &str, seed: u64, out: &str) {
     rep.finish("fault_enumeration", cov, assumptions, out);
 }
 
-pub fn replay_one(which: &str, fen: &str, d: u8, at: &str) -> i32 {
+pub fn replay_history(fen: &str, d: u8, at: u64) -> i32 {
+    let rep = Report::new("C06", "quick", 0);
+    let mg = MoveGenerator::new();
+    let b = board(&format!("{} 0 1", Pos::from_fen(fen).unwrap().fen4()));
+    history_point(&rep, &mg, "replay", &Pos::from_fen(fen).unwrap().fen(0, 1), &b, d, at);
+    let v = rep.violations.lock().unwrap();
+    for x in v.iter() {
+        println!("REPLAY-VIOLATION {} :: {}", x.sig, x.text);
+    }
+    if v.is_empty() {
+        println!("REPLAY-OK C06 history {} depth {} at {}", fen, d, at);
+        0
+    } else {
+        1
+    }
+}
+
+pub fn replay_one(which: &str, fen: &str, d: u8, at: &str, fd: Option<u8>) -> i32 {
     let rep = Report::new(if which == "C06" { "C06" } else { "C07" }, "quick", 0);
     let mg = MoveGenerator::new();
     let cache = RefCache::new(200_000);
     let b = board(&format!("{} 0 1", Pos::from_fen(fen).unwrap().fen4()));
     let ns: Vec<u64> = at.split(',').map(|t| t.parse().unwrap()).collect();
-    let r = one_point(which, &cache, &mg, &rep, "replay", &Pos::from_fen(fen).unwrap().fen(0, 1), &b, d, &ns, which == "C06");
+    let r = one_point_to(which, &cache, &mg, &rep, "replay", &Pos::from_fen(fen).unwrap().fen(0, 1), &b, d, fd.unwrap_or(d), &ns, which == "C06");
     let v = rep.violations.lock().unwrap();
     for x in v.iter() {
         println!("REPLAY-VIOLATION {} :: {}", x.sig, x.text);
